@@ -359,6 +359,68 @@ func runC17(p *core.Prog, r *core.Report) {
 		for _, lf := range leaves(ret.Results[0]) {
 			if call, ok := lf.(*ssa.Call); ok && sx.CalleeName(call) == "path/filepath.Join" {
 				join = call
+			} else if call, ok := lf.(*ssa.Call); ok && sx.CalleeName(call) == "path/filepath.Clean" && len(call.Call.Args) == 1 && !isBaseItself(lf, fn) {
+				// Join spelled out for two elements: Clean(base + "/" + cleaned), and Clean(cleaned) where the base is empty
+				var parts []ssa.Value
+				var flat func(v ssa.Value)
+				flat = func(v ssa.Value) {
+					if b, isB := v.(*ssa.BinOp); isB && b.Op == token.ADD {
+						flat(b.X)
+						flat(b.Y)
+						return
+					}
+					parts = append(parts, v)
+				}
+				flat(call.Call.Args[0])
+				okJ, why := true, ""
+				if len(parts) == 1 {
+					emptyBase := map[sx.Edge]bool{}
+					sx.Instrs(fn, func(in ssa.Instruction) {
+						b, isB := in.(*ssa.BinOp)
+						if !isB || (b.Op != token.EQL && b.Op != token.NEQ) || b.Referrers() == nil || !fromParam(b.X, fn, 0) {
+							return
+						}
+						if k, isC := sx.ConstString(b.Y); !isC || k != "" {
+							return
+						}
+						for _, u := range *b.Referrers() {
+							if iff, isIf := u.(*ssa.If); isIf {
+								idx := 0
+								if b.Op == token.NEQ {
+									idx = 1
+								}
+								emptyBase[sx.Edge{From: iff.Block(), Idx: idx}] = true
+							}
+						}
+					})
+					if len(emptyBase) == 0 || !sx.MustPass(fn, nil, call, sx.Cut{Edges: emptyBase}) {
+						okJ, why = false, "filepath.Clean of the path alone is returned on a path where the base is not known to be empty: the base is dropped"
+					} else if ok2, w2 := ctx.sanitized(parts[0], 0); !ok2 {
+						okJ, why = false, w2
+					}
+				} else {
+					if !fromParam(parts[0], fn, 0) {
+						okJ, why = false, "the text handed to filepath.Clean does not start with the base directory parameter ("+sx.ValPath(parts[0])+")"
+					}
+					if k, isC := sx.ConstString(parts[1]); okJ && (!isC || k != "/") {
+						okJ, why = false, "base and path are not separated by exactly one separator"
+					}
+					for _, pt := range parts[2:] {
+						if !okJ {
+							break
+						}
+						if k, isC := sx.ConstString(pt); isC && k == "/" {
+							continue
+						}
+						if ok2, w2 := ctx.sanitized(pt, 0); !ok2 {
+							okJ, why = false, w2
+						}
+					}
+				}
+				r.Check(okJ, "C17-R1", c+": result is Join spelled out (Clean(base + separator + cleaned))", p.Pos(call.Pos()), "the base parameter, one separator, then only text that derives from path.Clean", why)
+				if okJ {
+					nJoin++
+				}
 			} else if isBaseItself(lf, fn) {
 				// the base itself as a belt-and-braces fallback: inside the base, but the property also says that a dot-free
 				// path resolves to the plain join — so the fallback must be decided by a containment test that is right for
